@@ -15,7 +15,8 @@ VARIABLES L, V, hist, nfail, since
 vars == <<L, V, hist, nfail, since>>
 
 LG == INSTANCE Ledger WITH PRICE <- [a \in VASSETS |-> EffPrice(V, a).v],
-                           PDEC  <- [a \in VASSETS |-> EffPrice(V, a).dec]
+                           PDEC  <- [a \in VASSETS |-> EffPrice(V, a).dec],
+                           HOOKED <- TRUE
 
 STK == {SORD[i] : i \in DOMAIN SORD}
 
@@ -36,7 +37,8 @@ InitV ==
 
 \* the prelude is folded with the same operators the actions use
 LGAt(l, v) == INSTANCE Ledger WITH PRICE <- [a \in VASSETS |-> EffPrice(v, a).v],
-                                  PDEC  <- [a \in VASSETS |-> EffPrice(v, a).dec]
+                                  PDEC  <- [a \in VASSETS |-> EffPrice(v, a).dec],
+                                  HOOKED <- TRUE
 PreStep(acc, e) ==
   IF e.ev \in LedgerEvents THEN [l |-> LGAt(acc.l, acc.v)!Apply(acc.l, e.ev, e.a).st, v |-> acc.v]
   ELSE IF e.ev = "EpochEnd" THEN [l |-> LGAt(acc.l, acc.v)!NextBlock(acc.l), v |-> VApply(acc.l.pool, acc.v, e.ev, e.a).V]
